@@ -430,6 +430,14 @@ def has_mapped_member(t):
     return t[0] in ("Either", "CompoundH", "Base") and any(has_mapped_member(x) for x in t[1:])
 
 
+def has_any_member(t):
+    if isinstance(t, str):
+        return False
+    if t[0] in ("Either", "CompoundH"):
+        return any(x == "Any" or has_any_member(x) for x in (t[2:] if t[0] == "Either" else t[1:]))
+    return t[0] in ("Tuple", "Union", "Base") and any(has_any_member(x) for x in t[1:])
+
+
 def run_impl(case):
     kind, env, a, b = case.lstrip("#").split("|")
     assert kind == "a"
@@ -486,7 +494,10 @@ def run_impl(case):
                 outs.append("TraitError")
             else:
                 allowed = protocol_exceptions(vterm, set())
-                if en not in allowed:
+                if en not in allowed and en == "TypeError" and has_any_member(t):
+                    hits.append(_hit("compound-any-member-not-callable", where + ": raised TypeError ('NoneType' object is not "
+                                     "callable): TraitCompound calls the validate attribute of its Any member, which is None"))
+                elif en not in allowed:
                     hits.append(_hit("foreign-exception:%s:%s" % (raiser(t, value, ctx, obj, en), en),
                                      where + ": raised %s, which is neither TraitError nor raised by the value's own "
                                      "__index__/__float__/__complex__ or an overflowing conversion" % en))
